@@ -543,7 +543,11 @@ def _make_meta_call_wrapper(cls):
   cls_meta = type(cls)
 
   @functools.wraps(cls_meta.__call__)
-  def meta_call_wrapper(new_cls, *args, **kwargs):
+  def meta_call_wrapper(*args, **kwargs):
+    # The to-be-created class arrives positionally. It is not a named parameter:
+    # a constructor parameter of that name, bound or passed by keyword, would
+    # collide with it.
+    new_cls, *args = args
     # If `new_cls` (the to-be-created class) is a direct subclass of `cls`, we
     # can be sure that it's Gin's dynamically created subclass. In this case,
     # we directly create an instance of `cls` instead. Otherwise, some further
